@@ -194,7 +194,16 @@ pub fn mirror(ctx: &mut Ctx, case: &Case, factor: f64) {
 fn rand_ingredient(r: &mut Rng, dyadic: bool) -> bm::Ingredient {
     let name = r.pick(&["salt", "flour", "water", "égg"]).to_string();
     let units = r.pick(&[None, Some("g"), Some("kg"), Some("cup")]).map(String::from);
-    let num = |r: &mut Rng| if dyadic { r.below(800) as f64 / 8.0 } else { (r.below(100000) as f64) / 1000.0 + 0.1 };
+    // dyadic: k/1024 (sums are exact in f64, ten decimal digits — a total that is rounded, truncated or accumulated
+    // in f32 no longer compares equal); otherwise decimals with up to 9 digits spread over 12 orders of magnitude
+    let num = |r: &mut Rng| {
+        if dyadic {
+            r.below(800 * 128) as f64 / 1024.0
+        } else {
+            let mant = (r.below(1_000_000_000) as f64 + 1.0) / 1e9;
+            mant * [1e-6, 1e-3, 1.0, 1.0, 10.0, 1e3, 1e6][r.below(7)] + [0.0, 1.0 / 3.0][r.below(2)]
+        }
+    };
     let amount = match r.below(6) {
         0 => None,
         1 => Some(bm::Amount { quantity: bm::Value::Text { value: r.pick(&["some", "a bit", "x"]).to_string() }, units }),
